@@ -10,14 +10,14 @@ from fractions import Fraction
 import numpy as np
 from pymatgen.core import Lattice
 
-from . import core, gem
+from . import core, gem, translate
 from .core import Outcome, PropertySpec, enc
 
 from gemdat.metrics import TrajectoryMetrics  # noqa: E402
 from gemdat.transitions import _compute_site_radius  # noqa: E402
 
 PID = 'C02'
-MODULES = ['GProofs.Geometry', 'GProofs.C02']
+MODULES = ['GProofs.Geometry', 'GProofs.C02', 'GProofs.C02Gen']
 MARGIN = 1e-3  # Å: |distance - radius| below this is not decided by the statement for float32 boxes
 
 
@@ -308,6 +308,7 @@ SPEC = PropertySpec(
     modules=MODULES,
     run=run,
     replay=replay,
+    gen=translate.gen_for('FormulasC02'),
     classify=classify,
     rule=('random systems: pool lattice (cubic ... strongly triclinic) as is / re-oriented by an exact signed permutation / in pymatgen\'s '
           'from_parameters orientation / rotated by a (3,4,5)x(5,12,13) rotation; 2-8 (thorough 16) sites on a k/16 grid incl. faces and '
